@@ -1,6 +1,6 @@
 SPECIFICATION Spec
 CONSTANTS MaxRows = 5 NPair = 4 WithUnmapped = FALSE
-  Kinds = {"single", "swap"}
+  Kinds = {"swap"}
   AsIs_AllSharedKeyError = FALSE AsIs_PairByFirstName = FALSE Mut_NoStrip = FALSE Mut_SharedContribute = FALSE Mut_NoCollapse = FALSE Mut_KeepWorst = FALSE
 INVARIANT OnePerPair
 INVARIANT OwnerGroup
